@@ -3,7 +3,8 @@ SPEC = {
     "level": "proof",
     "lean_modules": ["PallasVerif.Props.C25"],
     "required_theorems": ["accept_sound_stack1", "disjoint_refuses_stack1", "order_independent_stack1",
-                          "accept_sound_stack2", "disjoint_refuses_stack2", "order_independent_stack2", "stack2_never_panics"],
+                          "accept_sound_stack2", "disjoint_refuses_stack2", "order_independent_stack2", "stack2_never_panics",
+                          "refusals_sound_stack1", "refusals_sound_stack2"],
     "streams": [{"name": "negotiate", "quick": 600, "thorough": 30000}],
     "rule": "one negotiation per case, alternating the two stacks: version tables of 0..16 entries each from overlapping / identical / "
             "disjoint / boundary-number pools, 1 or 4 network magics, a 3-valued extra flag; half of the cases make the common versions "
